@@ -291,6 +291,22 @@ class Func:
     def dominates(self, a, b):
         return b in self.dom and a in self.dom[b]
 
+    def natural_loops(self):
+        """[(header, frozenset(blocks))] from back edges u->h with h dominating u (normal edges)."""
+        loops = {}
+        for u in self.reachable_blocks(0):
+            for h in self.succ[u]:
+                if self.dominates(h, u):
+                    body = loops.setdefault(h, {h})
+                    work = [u]
+                    while work:
+                        x = work.pop()
+                        if x in body:
+                            continue
+                        body.add(x)
+                        work.extend(self.pred[x])
+        return [(h, frozenset(b)) for h, b in loops.items()]
+
     def in_cycle(self, bb):
         """Is block bb on a CFG cycle (normal edges)?"""
         seen = set()
